@@ -205,6 +205,14 @@ theorem segmentsNonEmpty_eq (bs : Bytes) : Spec.segmentsNonEmpty bs = segs4Ok bs
   | case3 t l rest hc ih => rw [Spec.segmentsNonEmpty]; simp [hc, ih]
   | case4 t l rest hc => rw [Spec.segmentsNonEmpty]; simp [hc]
 
+theorem aigpTlvs_eq (bs : Bytes) : Spec.aigpTlvs bs = aigpOk bs := by
+  fun_induction aigpOk bs with
+  | case1 => simp [Spec.aigpTlvs]
+  | case2 => simp [Spec.aigpTlvs]
+  | case3 => simp [Spec.aigpTlvs]
+  | case4 t l1 l2 rest hc ih => rw [Spec.aigpTlvs]; simp [hc, ih]
+  | case5 t l1 l2 rest hc => rw [Spec.aigpTlvs]; simp [hc]
+
 theorem flatMap_beN4_length (ns : List Nat) : (ns.flatMap (beN 4)).length = ns.length * 4 := by
   induction ns with
   | nil => rfl
@@ -532,7 +540,11 @@ theorem rt_known_raw (code flags : Nat) (d : Data) (hcode : code = 14 ∨ code =
   | bin b =>
       refine ⟨.unknown 0x80 code b, ?_, ?_⟩
       · rcases hcode with rfl | rfl | rfl <;> simp [toApi, Attribute.binary]
-      · rcases hcode with rfl | rfl | rfl <;> simp [fromApi, current, canonicalFlags, typedCode]
+      · rcases hcode with rfl | rfl | rfl
+        · simp [fromApi, current, canonicalFlags, typedCode]
+        · simp [fromApi, current, canonicalFlags, typedCode]
+        · simp [WF, wfClause, classOf, binClause, aigpTlvs_eq] at hwf
+          simp [fromApi, current, canonicalFlags, typedCode, hwf.2.2]
 
 theorem rt_unknown (code flags : Nat) (d : Data) (hr : rawCode code) (h14 : code ≠ 14) (h15 : code ≠ 15)
     (h26 : code ≠ 26) (hwf : WF ⟨code, flags, d⟩) : RT current ⟨code, flags, d⟩ := by
@@ -656,6 +668,16 @@ theorem decodeData_wf (code : Nat) (bs : Bytes) (d : Data) (hb : AllB bs)
     simp [decodeData] at h
     obtain ⟨⟨hl2, hl6⟩, hs, rfl⟩ := h
     simp [dataClause, binClause, hbs, segmentsNonEmpty_eq, hs, hl2]; omega
+  by_cases h3 : code = 3
+  · subst h3
+    simp [decodeData] at h
+    obtain ⟨hs, rfl⟩ := h
+    simp [dataClause, binClause, hbs, hs]
+  by_cases h26 : code = 26
+  · subst h26
+    simp [decodeData] at h
+    obtain ⟨hs, rfl⟩ := h
+    simp [dataClause, binClause, hbs, aigpTlvs_eq, hs]
   · have hd : d = .bin bs := by
       have : ¬ (code = 4 ∨ code = 5 ∨ code = 9) := h4
       have h810 : ¬ (code = 8 ∨ code = 10) := by omega
@@ -892,8 +914,9 @@ theorem binClause_c7 (bs : Bytes) (hb : Spec.isBytes bs = true) (hl : bs.length 
     binClause 7 bs = none := by simp [binClause, hb, hl]
 theorem binClause_c2 (bs : Bytes) (hb : Spec.isBytes bs = true) (hs : segsOk bs = true) :
     binClause 2 bs = none := by simp [binClause, hb, segments_eq, hs]
-theorem binClause_c3 (bs : Bytes) (hb : Spec.isBytes bs = true) : binClause 3 bs = none := by
-  simp [binClause, hb]
+theorem binClause_c3 (bs : Bytes) (hb : Spec.isBytes bs = true) (hl : bs.length = 4 ∨ bs.length = 16) :
+    binClause 3 bs = none := by
+  simp [binClause, hb, hl]
 
 theorem flatMap3_len (l : List (Nat × Nat × Nat)) :
     (l.flatMap fun t => beN 4 t.1 ++ beN 4 t.2.1 ++ beN 4 t.2.2).length % 12 = 0 := by
@@ -966,11 +989,11 @@ theorem from_api_wf (x : ApiAttr) (a : Attribute) (hr : x.inRange = true)
       | ip4 n =>
           simp [AStr.parse4, newWithBin, canonicalFlags] at h; subst h
           exact wf_canon 3 0x40 _ (by simp [canonicalFlags])
-            (binClause_c3 _ (allB_specBytes (beN_lt 4 n)))
+            (binClause_c3 _ (allB_specBytes (beN_lt 4 n)) (Or.inl (beN_length 4 n)))
       | ip6 n =>
           simp [AStr.parse4, AStr.parse6, newWithBin, canonicalFlags] at h; subst h
           exact wf_canon 3 0x40 _ (by simp [canonicalFlags])
-            (binClause_c3 _ (allB_specBytes (beN_lt 16 n)))
+            (binClause_c3 _ (allB_specBytes (beN_lt 16 n)) (Or.inr (beN_length 16 n)))
       | bad k => simp [AStr.parse4, AStr.parse6] at h
   | aggregator asn addr =>
       simp only [fromApi] at h
@@ -1063,13 +1086,23 @@ theorem from_api_wf (x : ApiAttr) (a : Attribute) (hr : x.inRange = true)
           split at h
           · simp at h
           · rename_i hty
-            simp only [Out.ok.injEq] at h; subst h
             simp only [typedCode, decide_eq_true_eq, not_or] at hty
             obtain ⟨n1, n2, n3, n4, n5, n6, n7, n8, n9, n10, n16, n32, n23, n29, n17, n18⟩ := hty
-            exact wf_canon t fl _ hcan (by
-              have a1 : ¬ (t = 1 ∨ t = 4 ∨ t = 5 ∨ t = 9) := by omega
-              have a2 : ¬ (t = 8 ∨ t = 10) := by omega
-              simp [dataClause, binClause, hv, *])
+            split at h
+            · simp at h
+            · rename_i haigp
+              simp only [Out.ok.injEq] at h; subst h
+              exact wf_canon t fl _ hcan (by
+                have a1 : ¬ (t = 1 ∨ t = 4 ∨ t = 5 ∨ t = 9) := by omega
+                have a2 : ¬ (t = 8 ∨ t = 10) := by omega
+                by_cases h26 : t = 26
+                · subst h26
+                  have : aigpOk v = true := by
+                    cases hh : aigpOk v with
+                    | true => rfl
+                    | false => exact absurd ⟨rfl, hh⟩ haigp
+                  simp [dataClause, binClause, hv, aigpTlvs_eq, this]
+                · simp [dataClause, binClause, hv, *])
         · rename_i hcan
           split at h
           · rename_i hbits
@@ -1885,10 +1918,12 @@ theorem from_api_code (x : ApiAttr) (a : Attribute) (h : fromApi current x = .ok
         · split at h
           · simp at h
           · rename_i hty
-            simp only [Out.ok.injEq] at h; subst h
             simp only [typedCode, decide_eq_true_eq, not_or] at hty
             obtain ⟨n1, n2, n3, n4, n5, n6, n7, n8, n9, n10, n16, n32, n23, n29, n17, n18⟩ := hty
-            exact ⟨n17, n18, fun h3 => absurd h3 n3⟩
+            split at h
+            · simp at h
+            · simp only [Out.ok.injEq] at h; subst h
+              exact ⟨n17, n18, fun h3 => absurd h3 n3⟩
         · rename_i hcan
           split at h
           · simp only [Out.ok.injEq] at h; subst h
